@@ -105,3 +105,9 @@ for _spec in dcspec.SPECS:
                       'attribute view, getattr incl. deferred defaults, `in` for every spelling',
                out='combinations of option groups; non-int field types; inheritance')(
                 (lambda s, g, b: lambda V: _c05(V, s, g, b))(_spec, _g, _base))
+
+
+# ------------------------------------------------------------------ 'optional fields take a fresh copy of their default'
+from vt import defaults_h  # noqa: E402
+
+ob('fresh-defaults', marks=['schema', 'function', 'forced'], budget=(60, 200), bounds=defaults_h.BOUNDS)(defaults_h.defaults)
